@@ -298,7 +298,8 @@ func runC16(c *Ctx) {
 		for _, in := range append(asInstrs(callsToFn(fn, acquire)), asInstrs(callsToFn(fn, w.prepareWrite))...) {
 			good := false
 			for _, l := range guardsOf(in.Block()) {
-				op, x, y, ok := l.cmp()
+				op, y, x, ok := l.cmpWhere(func(v ssa.Value) bool { return loadOfField(v, w.maxMsg) })
+				op = mirrorOp(op) // read as: x OP max
 				if ok && op == token.LEQ && loadOfField(y, w.maxMsg) {
 					if lc, ok := stripConv(x).(*ssa.Call); ok {
 						if bi, ok := lc.Call.Value.(*ssa.Builtin); ok && bi.Name() == "len" && resolveCell(lc.Call.Args[0]) == ssa.Value(b) {
